@@ -253,6 +253,18 @@ func c13HSScenario(h c13HS, il bool) *Scenario {
 
 func propC13(j *Job) {
 	twoInitCases(j, "C13")
+	for _, il := range []bool{false, true} {
+		for _, b2b := range []bool{false, true} {
+			j.Explore(fmt.Sprintf("collision/il%v/b2b%v", il, b2b), c13CollisionScenario(il, b2b), Budget{D: 1}, nil)
+		}
+	}
+	// start from out-of-band tokens (SNAP): each side sends zero checksums iff the *other*
+	// side's token advertises acceptance, in all four combinations
+	for opt := 0; opt < 4; opt++ {
+		a := epCfg{ZeroChecksum: opt&1 != 0, RTOMax: 4000, InitTSN: 0xFFFFFFFE, MTU: 228}
+		b := epCfg{ZeroChecksum: opt&2 != 0, RTOMax: 4000, InitTSN: 5, MTU: 228}
+		j.Explore(fmt.Sprintf("snap/zcA%v/zcB%v", a.ZeroChecksum, b.ZeroChecksum), hsScenario(&hsSpec{A: a, B: b, SNAP: true}), Budget{}, nil)
+	}
 	c13Matrix(j)
 	// corruption: batches of bit flips
 	batch := 400
@@ -321,4 +333,74 @@ func propC13(j *Job) {
 	runCases(j, cases, func(spec *xferSpec) func(m *Sim, x *Exec, r *xferResult) {
 		return deliveryFinal(spec, false, monOpts{Cksum: true})
 	})
+}
+
+// c13CollisionScenario: simultaneous open against a scripted peer that advertises zero
+// checksum acceptance.  The peer's INIT-ACK and its COOKIE-ECHO reach the endpoint back to
+// back, so the endpoint is established (by the peer's COOKIE-ECHO) before its own COOKIE-ECHO
+// has been serialised: INIT and COOKIE-ECHO must carry a real CRC32c whatever the state.
+func c13CollisionScenario(il bool, backToBack bool) *Scenario {
+	return &Scenario{
+		Name:    "zc-collision",
+		Horizon: 60 * time.Second,
+		Setup:   func(m *Sim) { m.W.delay = [2]time.Duration{time.Millisecond, time.Millisecond} },
+		Body: func(m *Sim) {
+			cfg := epCfg{NoInterleave: !il, ZeroChecksum: true, MTU: 228, RTOMax: 4000, InitTSN: 77}
+			p := newScripted(m, cfg, il, true)
+			p.dialT = m.Go("dial", func() { m.Dial(0, cfg) })
+			out := p.settle(0)
+			if len(out) == 0 || out[0].dec == nil || out[0].dec.Chunks[0].Typ != wINIT {
+				m.Failf("e2.base", "no INIT from the dialling endpoint")
+				c03Teardown(m, p)
+				return
+			}
+			// our own INIT crosses theirs: they answer with INIT-ACK and a cookie
+			init := chunkBytes(wINIT, 0, wInitVal(p.tag, p.arwnd, 65535, 65535, p.tsn0, p.initParams()...))
+			w := wNewPacket(5000, 5000, 0)
+			w.rawChunk(init)
+			p.cookie = nil
+			p.inject(w.bytes(true))
+			if p.cookie == nil {
+				m.Failf("e2.base", "no INIT-ACK for the crossing INIT")
+				c03Teardown(m, p)
+				return
+			}
+			theirCookie := p.cookie
+			ours := []byte("cookie-cookie-cookie-cookie-5678")
+			iack := p.pkt(chunkBytes(wINITACK, 0, wInitVal(p.tag, p.arwnd, 65535, 65535, p.tsn0, append([][]byte{wTLVBytes(7, ours, true)}, p.initParams()...)...)))
+			echo := p.pkt(chunkBytes(wCOOKIEECHO, 0, theirCookie))
+			if backToBack {
+				m.W.inject(0, iack)
+				m.W.inject(0, echo)
+				p.settle(0)
+			} else {
+				p.inject(iack)
+				p.inject(echo)
+			}
+			p.inject(p.pkt(chunkBytes(wCOOKIEACK, 0, nil)))
+			m.WaitUntil("dial-done", 5*time.Second, func() bool { return p.dialT.Done })
+			p.a = m.As[0]
+			if p.a == nil {
+				m.Failf("e2.base", "simultaneous open did not complete: %v", m.Err[0])
+				c03Teardown(m, p)
+				return
+			}
+			for _, ev := range m.W.events {
+				if ev.Kind == "send" && ev.From == 0 && ev.Pkt.dec != nil {
+					d := ev.Pkt.dec
+					if !d.CksumZero && !d.CksumOK {
+						m.Failf("cksum.emit", "endpoint emitted a wrong CRC32c (%s)", d.Summary())
+					}
+					for _, c := range d.Chunks {
+						if d.CksumZero && (c.Typ == wINIT || c.Typ == wCOOKIEECHO) {
+							m.Failf("cksum.emit", "zero checksum on a packet carrying %s (sent at %v, association state established=%v)", wTypeName(c.Typ), ev.At, true)
+						}
+					}
+				}
+			}
+			m.Observe("collision il=%v b2b=%v", il, backToBack)
+			c03Teardown(m, p)
+		},
+		Final: func(m *Sim, x *Exec) { generalVerdicts(m, x, false) },
+	}
 }
